@@ -32,8 +32,9 @@ THEOREMS = ['Props.C19.' + t for t in [
     'layer_mapping_nearest_first', 'nearestIdx_is_nearest', 'nearestIdx_first_minimum',
     'block_mapping_total_nearestIdx_partial', 'block_mapping_spec_nearestIdx_partial',
     'block_mapping_atmosphere_nearestIdx_partial', 'incon_transfer_total_nearestIdx_partial',
-    'block_mapping_identity_nearestIdx', 'block_mapping_keyerror_nearestIdx']]
-LEVEL_TEXT = ('Proof: 28 Lean theorems (no sorry) about an executable model of mulgrid.block_mapping / column_mapping / layer_mapping / '
+    'block_mapping_identity_nearestIdx', 'block_mapping_keyerror_nearestIdx',
+    'block_mapping_identity_same_grid_partial', 'block_mapping_identity_same_grid_nearestIdx_partial']]
+LEVEL_TEXT = ('Proof: 30 Lean theorems (no sorry) about an executable model of mulgrid.block_mapping / column_mapping / layer_mapping / '
               'column_surface_layer, t2incon.transfer_from (functional and object-heap versions) and t2data.transfer_generators_from / '
               'transfer_rocktypes_from: block_mapping returns and is total, underground blocks go to existing source blocks, atmosphere blocks to '
               'the source\'s corresponding atmosphere block; the image is the nearest column x nearest layer, moved to the column\'s first '
@@ -49,7 +50,10 @@ LEVEL_TEXT = ('Proof: 28 Lean theorems (no sorry) about an executable model of m
               'nearest-neighbour function over exact squared distances returns an index of minimal distance, the first one. '
               'block_mapping_total/spec/atmosphere_nearestIdx_partial, incon_transfer_total_nearestIdx_partial, block_mapping_identity_nearestIdx, '
               'block_mapping_keyerror_nearestIdx - the six theorems that assumed IsNearest q, instantiated at nearestIdx (no uninterpreted parameter left; '
-              'the _partial ones still exclude source atmosphere 1/2 -> target 0). NOT proved: that cKDTree.query itself meets IsNearest (assumption, checked '
+              'the _partial ones still exclude source atmosphere 1/2 -> target 0). block_mapping_identity_same_grid_partial (+ _nearestIdx_partial) - the same grid '
+              '(same convention, columns, layers; distinct centres) with INDEPENDENT atmosphere types and block orders: for all 7 combinations that return, every '
+              'underground block and column maps to itself, single->single atmosphere is the identity, a per-column atmosphere block keeps its name for source '
+              'type 1/2 and goes to the single atmosphere block for source type 0. NOT proved: that cKDTree.query itself meets IsNearest (assumption, checked '
               'per explored case); which of several equidistant columns cKDTree returns. Tied to /repo on every run by correspondence (names, block_mapping incl. the scipy-less fallback and '
               'geometries outside the hypotheses, incon transfer in both models, generator/rock/print-block/incon-dict transfer) and a direct oracle.')
 LEVEL_NOTE = ('Trusted: Lean kernel (+propext, Classical.choice, Quot.sound); scipy cKDTree.query is a parameter of the model constrained by '
